@@ -57,13 +57,13 @@ fn u_owned_new_types() {
 
 // ---- C18 E-owned --------------------------------------------------------------------------------
 
-use crate::verif_atomic::{ATOMIC_STEPS, INTERFERE};
+use crate::verif_atomic::{ATOMIC_STEPS, INTERFERE_KIND};
 
 static mut OTHER_BOX: *mut Parsed = core::ptr::null_mut();
 static mut OTHER_PUBLISHED: u8 = 0;
 
 /// the other reader: parses on its own and publishes iff the cell is still empty
-unsafe fn other_reader_publishes(cell: *mut *mut u8) {
+pub(crate) unsafe fn other_reader_publishes(cell: *mut *mut u8) {
     if (*cell).is_null() {
         let b = Box::into_raw(Box::new(Parsed::Bool(false)));
         OTHER_BOX = b;
@@ -100,13 +100,13 @@ fn cut_load_owned_lazyvalue<'de, R: crate::reader::Reader<'de>>(
 /// with the value (CBMC's dereference / double-free checks), and a clone taken afterwards
 /// carries an equal decoding.
 #[kani::proof]
-#[kani::unwind(1)]
+#[kani::unwind(2)]
 #[kani::stub(crate::parser::Parser::load_owned_lazyvalue, cut_load_owned_lazyvalue)]
 #[kani::stub(crate::reader::Read::from, cut_read_from)]
 #[kani::stub(core::mem::drop, drop_cut)]
 fn e_owned_load() {
     unsafe {
-        INTERFERE = Some(other_reader_publishes);
+        INTERFERE_KIND = 3;
         OTHER_PUBLISHED = 0;
         OTHER_BOX = core::ptr::null_mut();
     }
@@ -130,7 +130,7 @@ fn e_owned_load() {
     } else {
         assert!(mine1);
     }
-    unsafe { INTERFERE = None };
+    unsafe { INTERFERE_KIND = 0 };
     assert_eq!(*lr.parsed.get_mut() as *const Parsed, p1);
     // a clone taken now carries an equal, independent decoding
     let c = lr.clone_lazyraw();
@@ -152,8 +152,9 @@ fn e_owned_load() {
 #[kani::unwind(2)]
 #[kani::stub(crate::parser::Parser::load_owned_lazyvalue, cut_load_owned_lazyvalue)]
 #[kani::stub(crate::reader::Read::from, cut_read_from)]
+#[kani::stub(core::mem::drop, drop_cut)]
 fn e_owned_load_then_parse() {
-    unsafe { INTERFERE = None };
+    unsafe { INTERFERE_KIND = 0 };
     let mut lr = LazyRaw {
         raw: FastStr::from_static_str("[1]"),
         parsed: AtomicPtr::new(std::ptr::null_mut()),
@@ -166,37 +167,168 @@ fn e_owned_load_then_parse() {
     }
     let taken = lr.parse();
     assert!(matches!(taken.as_ref().ok().unwrap(), Parsed::Bool(true)));
-    // the cache no longer owns the decoding
+    // the cache no longer owns the decoding (otherwise Drop for LazyRaw would free it a second time)
     assert!((*lr.parsed.get_mut()).is_null());
-    drop(taken);
-    drop(lr);
+    core::mem::forget(taken);
+    core::mem::forget(lr);
     kani::cover!(filled);
     kani::cover!(!filled);
 }
 
 /// C13 U-owned-mut-probe: a failed `as_array_mut()` / `as_object_mut()` probe on an unparsed
 /// value of another type leaves the value untouched (still raw, same text), so it still
-/// serializes back to its source text verbatim.
+/// serializes back to its source text verbatim. (Concrete raw texts: with a symbolic one the
+/// replaced-value path, whose drop glue does not fit, is explored syntactically.)
+fn mut_probe_body(raw: &'static [u8], want_array: bool) {
+    let mut o = OwnedLazyValue::new(JsonSlice::Raw(raw), HasEsc::Possible);
+    let hit = if want_array { o.as_array_mut().is_some() } else { o.as_object_mut().is_some() };
+    assert!(!hit);
+    match &o.0 {
+        LazyPacked::Raw(r) => assert!(r.raw.as_bytes().len() == raw.len() && r.raw.as_bytes()[0] == raw[0]),
+        _ => panic!("a failed mutable probe must not replace the raw value"),
+    }
+    core::mem::forget(o);
+}
+
 #[kani::proof]
-#[kani::unwind(10)]
+#[kani::unwind(6)]
 #[kani::stub(crate::parser::Parser::load_owned_lazyvalue, cut_load_owned_lazyvalue)]
 #[kani::stub(crate::reader::Read::from, cut_read_from)]
+#[kani::stub(core::mem::drop, drop_cut)]
 fn u_owned_mut_probe_keeps_raw() {
-    let k: u8 = kani::any();
-    kani::assume(k >= 3 && k <= 7);
-    let (raw, ty) = lit(k);
-    let mut o = OwnedLazyValue::new(JsonSlice::Raw(raw), HasEsc::Possible);
-    let want_array: bool = kani::any();
-    let hit = if want_array { o.as_array_mut().is_some() } else { o.as_object_mut().is_some() };
-    let same_kind = if want_array { ty == JsonType::Array } else { ty == JsonType::Object };
-    assert_eq!(hit, same_kind);
-    if !same_kind {
-        match &o.0 {
-            LazyPacked::Raw(r) => assert!(r.raw.as_bytes().len() == raw.len() && r.raw.as_bytes()[0] == raw[0]),
-            _ => panic!("a failed mutable probe must not replace the raw value"),
-        }
+    mut_probe_body(b"1.50", true);
+    mut_probe_body(b"\"a\\/b\"", false);
+    mut_probe_body(b"{}", true);
+    mut_probe_body(b"[]", false);
+}
+
+#[kani::proof]
+#[kani::unwind(1)]
+#[kani::stub(crate::parser::Parser::load_owned_lazyvalue, cut_load_owned_lazyvalue)]
+#[kani::stub(crate::reader::Read::from, cut_read_from)]
+#[kani::stub(core::mem::drop, drop_cut)]
+fn t_owned_load_plain() {
+    unsafe { INTERFERE_KIND = 0 };
+    let lr = LazyRaw {
+        raw: FastStr::from_static_str("[1]"),
+        parsed: AtomicPtr::new(std::ptr::null_mut()),
+    };
+    let r1 = lr.load();
+    assert!(r1.is_ok());
+    core::mem::forget(r1);
+    core::mem::forget(lr);
+}
+
+#[kani::proof]
+#[kani::unwind(2)]
+#[kani::stub(crate::parser::Parser::load_owned_lazyvalue, cut_load_owned_lazyvalue)]
+#[kani::stub(crate::reader::Read::from, cut_read_from)]
+#[kani::stub(core::mem::drop, drop_cut)]
+fn t_owned_load_hook() {
+    unsafe {
+        INTERFERE_KIND = 3;
+        OTHER_PUBLISHED = 0;
     }
-    kani::cover!(!same_kind && k == 3);
-    kani::cover!(same_kind);
-    core::mem::forget(o);
+    let lr = LazyRaw {
+        raw: FastStr::from_static_str("[1]"),
+        parsed: AtomicPtr::new(std::ptr::null_mut()),
+    };
+    let r1 = lr.load();
+    assert!(r1.is_ok());
+    core::mem::forget(r1);
+    core::mem::forget(lr);
+}
+
+#[kani::proof]
+#[kani::unwind(1)]
+#[kani::stub(crate::parser::Parser::load_owned_lazyvalue, cut_load_owned_lazyvalue)]
+#[kani::stub(crate::reader::Read::from, cut_read_from)]
+#[kani::stub(core::mem::drop, drop_cut)]
+fn t_owned_load_clone() {
+    unsafe { INTERFERE_KIND = 0 };
+    let lr = LazyRaw {
+        raw: FastStr::from_static_str("[1]"),
+        parsed: AtomicPtr::new(std::ptr::null_mut()),
+    };
+    let r1 = lr.load();
+    assert!(r1.is_ok());
+    core::mem::forget(r1);
+    let c = lr.clone_lazyraw();
+    assert!(c.is_err());
+    core::mem::forget(c);
+    core::mem::forget(lr);
+}
+
+#[kani::proof]
+#[kani::unwind(2)]
+#[kani::stub(crate::parser::Parser::load_owned_lazyvalue, cut_load_owned_lazyvalue)]
+#[kani::stub(crate::reader::Read::from, cut_read_from)]
+fn t_owned_load_hook_nodropcut() {
+    unsafe {
+        INTERFERE_KIND = 3;
+        OTHER_PUBLISHED = 0;
+    }
+    let lr = LazyRaw {
+        raw: FastStr::from_static_str("[1]"),
+        parsed: AtomicPtr::new(std::ptr::null_mut()),
+    };
+    let r1 = lr.load();
+    assert!(r1.is_ok());
+    core::mem::forget(r1);
+    core::mem::forget(lr);
+}
+
+static mut ONLY_STEP: u8 = 0;
+pub(crate) unsafe fn other_publishes_at_step(cell: *mut *mut u8) {
+    if ATOMIC_STEPS == ONLY_STEP {
+        other_reader_publishes(cell)
+    }
+}
+
+fn t_hook_body(step: u8) {
+    unsafe {
+        INTERFERE_KIND = 4;
+        OTHER_PUBLISHED = 0;
+        ONLY_STEP = step;
+        ATOMIC_STEPS = 0;
+    }
+    let lr = LazyRaw {
+        raw: FastStr::from_static_str("[1]"),
+        parsed: AtomicPtr::new(std::ptr::null_mut()),
+    };
+    let r1 = lr.load();
+    assert!(r1.is_ok());
+    core::mem::forget(r1);
+    core::mem::forget(lr);
+}
+
+#[kani::proof]
+#[kani::unwind(2)]
+#[kani::stub(crate::parser::Parser::load_owned_lazyvalue, cut_load_owned_lazyvalue)]
+#[kani::stub(crate::reader::Read::from, cut_read_from)]
+#[kani::stub(core::mem::drop, drop_cut)]
+fn t_owned_hook_step1() {
+    t_hook_body(1);
+}
+
+#[kani::proof]
+#[kani::unwind(2)]
+#[kani::stub(crate::parser::Parser::load_owned_lazyvalue, cut_load_owned_lazyvalue)]
+#[kani::stub(crate::reader::Read::from, cut_read_from)]
+#[kani::stub(core::mem::drop, drop_cut)]
+fn t_owned_hook_step2() {
+    t_hook_body(2);
+}
+
+#[kani::proof]
+#[kani::unwind(2)]
+fn t_owned_hook_alone() {
+    unsafe {
+        OTHER_PUBLISHED = 0;
+        let mut cell: *mut u8 = core::ptr::null_mut();
+        other_reader_publishes(&mut cell as *mut *mut u8);
+        assert!(!cell.is_null());
+        let p = cell as *const Parsed;
+        assert!(matches!(&*p, Parsed::Bool(false)));
+    }
 }
